@@ -620,8 +620,18 @@ func verifUDPReaderStep(pxy *UDPProxy) bool {
 //verif:props C03
 //verif:kinds loop,post,pre
 func verif_UDPProxy_workConnReader(conn net.Conn) {
+	pxy := verif.FreeVar[*UDPProxy]("pxy")
 	verif.ResetEvents()
 	verif.CallTarget(conn)
+	// the reader stops only on a broken work connection or a closed proxy; it
+	// closes the connection, and a read failure of any kind (a clean EOF
+	// included) is reported so that the proxy fetches a replacement - otherwise
+	// the tunnel is dead for good
+	verif.Ensures(verif.CalledWith("net.Conn).Close", 0, conn), "work_connection_closed_when_the_reader_stops")
+	nR := verif.CallCount("msg.ReadMsg")
+	if nR >= 1 && verif.NthRet[error]("msg.ReadMsg", nR-1, 1) != nil {
+		verif.Ensures(verif.SentOn(pxy.checkCloseCh) || verif.Recovered(), "broken_work_connection_is_reported_for_replacement")
+	}
 }
 
 // Sender (one arbitrary iteration that took a packet from the proxy's send
@@ -697,5 +707,48 @@ func verif_NewUDPProxy(base *BaseProxy) {
 		verif.Ensures(base.usedPortsNum == 1, "counts_one_port")
 	} else {
 		verif.Ensures(p == nil, "other_configuration_yields_no_proxy")
+	}
+}
+
+// HTTPProxy.GetRealConn (the work connection the http reverse proxy forwards a
+// request over; C02 "requests and responses preserved", C05 "configured
+// encryption really protects the wire"): the stream handed to the reverse
+// proxy is built on a work connection of this proxy with exactly the layers
+// the proxy declares, in the order the client undoes them - encryption keyed by
+// the token directly on the work connection, compression directly above it, the
+// limiter (if any) on top in both directions - and wrapped as a connection.
+//
+//verif:contract (*~/server/proxy.HTTPProxy).GetRealConn
+//verif:props C02 C05 C01
+func verif_HTTPProxy_GetRealConn(pxy *HTTPProxy, remoteAddr string) {
+	enc, comp := pxy.cfg.Transport.UseEncryption, pxy.cfg.Transport.UseCompression
+	token := pxy.serverCfg.Auth.Token
+	lim := pxy.limiter
+	verif.ResetEvents()
+	workConn, err := pxy.GetRealConn(remoteAddr)
+	const evWrap, evCompH = "net.WrapReadWriteCloserToConn", "golib/io.WithCompression$"
+	if err == nil {
+		wc := verif.Ret[net.Conn](evPoolConn, 0)
+		verif.Ensures(workConn != nil && verif.CalledWith(evPoolConn, 0, pxy.BaseProxy) && verif.RetErr(evPoolConn, 1) == nil, "built_on_a_work_connection_of_this_proxy")
+		verif.Ensures(verif.Called(evEncS) == enc && verif.Called(evCompH) == comp, "layers_iff_configured")
+		var below any = wc
+		if enc {
+			verif.Ensures(verif.Same(verif.NthArg[any](evEncS, 0, 0), below) && verif.CalledWith(evEncS, 1, []byte(token)), "encryption_directly_on_the_work_connection_keyed_by_token")
+			below = verif.Ret[any](evEncS, 0)
+		}
+		if comp {
+			verif.Ensures(verif.Same(verif.NthArg[any](evCompH, 0, 0), below), "compression_directly_above")
+			below = verif.Ret[any](evCompH, 0)
+		}
+		if lim == nil {
+			verif.Ensures(verif.Same(verif.NthArg[any](evWrap, 0, 0), below), "top_of_the_stack_is_handed_on")
+		} else {
+			verif.Ensures(verif.Same(verif.NthArg[any]("limit.NewReader", 0, 0), below) && verif.Same(verif.NthArg[any]("limit.NewWriter", 0, 0), below), "limiter_on_top_of_the_stack_in_both_directions")
+			verif.Ensures(verif.CalledWith("limit.NewReader", 1, lim) && verif.CalledWith("limit.NewWriter", 1, lim), "the_proxys_shared_limiter")
+			verif.Ensures(verif.Same(verif.NthArg[any](evWrap, 0, 0), any(verif.Ret[io.ReadWriteCloser]("golib/io.WrapReadWriteCloser", 0))), "limited_stream_is_handed_on")
+		}
+		verif.Ensures(verif.Same(verif.NthArg[any](evWrap, 0, 1), any(wc)), "connection_identity_is_the_work_connection")
+	} else {
+		verif.Ensures(workConn == nil || verif.Called(evEncS), "no_connection_without_a_work_connection")
 	}
 }
